@@ -509,3 +509,208 @@ Example C03_finder_wrong_fixed_length_loses_match :
   bad 0 = (true, 5) /\ sc_chk_H1 Z 7 false bad ex = false /\
   scan 7 false 2 bad ex 0 (-1) = Ok None /\ naive_scan 7 false ex 0 (-1) = Ok (Some 4).
 Proof. vm_compute. repeat split; reflexivity. Qed.
+
+(* ---- literal after a leading loop, landmark chain, first-character loop ------------------------
+   Further facts:
+     fd_lal_fact l S           a match at q runs over runes of the loop set S up to some k >= q where the
+                               literal of l stands (string - exact or ignore-case as the finder compares -,
+                               one of a few runes, or one rune)
+     fd_chain_fact S A rest    a match at q runs over runes of S up to s, then over leading whitespace of
+                               an alternative a of the first landmark A up to c where a stands
+                               ([fd_alt_match_at a c e]: required whitespace just before c, the literal or
+                               MinRepeat..MaxRepeat set runes in [c,e), required whitespace at e), and the
+                               remaining landmarks stand in order at or after e ([fd_chain_rest])
+     fd_fc_fact rtl test       the rune ahead of a match position (behind it, right-to-left) passes test
+   [fd_alts_wf] / [fd_chain_wf]: MinRepeat of every alternative is >= 0. *)
+
+(* LiteralAfterLoop_LeftToRight: runner.go:1716 findLiteralAfterLoopLeftToRight + indexOfLiteralAfterLoop *)
+Theorem C03_finder_literal_after_loop :
+  forall (R : Type) (text : list Z) (exec : Z -> option R * Z) (lower : Z -> Z) (minreq : Z),
+    fd_minlen_fact R text exec minreq ->
+    forall (set_in : Z -> Z -> bool) (l : fdlal) (ls : Z),
+    lal_loop_set l = Some ls ->
+    fd_lal_fact R text exec lower set_in l ls ->
+    fd_sound R text exec (fun p => fd_find_literal_after_loop text set_in lower minreq p (Some l)).
+Proof. exact fd_literal_after_loop_sound. Qed.
+Print Assumptions C03_finder_literal_after_loop.
+
+(* RequiredLandmarkChain_LeftToRight: runner.go:1744 findRequiredLandmarkChainLeftToRight with
+   findNextRequiredLandmarkRunes, requiredLandmarkAlternativeMatch, requiredLandmarkMinWidth and
+   requiredLandmarkLeadingWhitespace, as repaired by /repo commits 573b074, 563c473, 5218d84 (before them
+   the statement is false: DESIGN 12.4). *)
+Theorem C03_finder_landmark_chain :
+  forall (R : Type) (text : list Z) (exec : Z -> option R * Z) (minreq : Z),
+    fd_minlen_fact R text exec minreq ->
+    forall (set_in : Z -> Z -> bool) (c : fdchain) (ls : Z) (first_alts : list fdalt) (rest : list (list fdalt)),
+    lc_loop_set c = Some ls -> lc_landmarks c = first_alts :: rest ->
+    fd_alts_wf first_alts -> fd_chain_wf rest ->
+    fd_chain_fact R text exec set_in ls first_alts rest ->
+    fd_sound R text exec (fun p => fd_find_landmark_chain text set_in minreq p (Some c)).
+Proof. exact fd_landmark_chain_sound. Qed.
+Print Assumptions C03_finder_landmark_chain.
+
+(* findFirstCharOptimized (runner.go:1497): the dispatch.  [fd_mode_fact o] is the fact of o's FindMode
+   (with the side conditions above), [fd_mode_handled o] says the mode is one the dispatcher serves; the
+   second conjunct: it then always answers handled = true. *)
+Theorem C03_finder_optimized_dispatch :
+  forall (R : Type) (text : list Z) (exec : Z -> option R * Z) (set_in : Z -> Z -> bool) (lower : Z -> Z) (o : fdopts),
+    fd_mode_handled o = true ->
+    fd_minlen_fact R text exec (fo_minreq o) ->
+    fd_mode_fact R text exec set_in lower o ->
+    fd_sound R text exec (fd_optimized_finder text set_in lower o) /\
+    (forall p r, fd_find_first_char_optimized text set_in lower o p = Ok r -> fst (fst r) = true).
+Proof. exact fd_optimized_sound. Qed.
+Print Assumptions C03_finder_optimized_dispatch.
+
+Theorem C03_should_use_implies_handled :
+  forall o, fd_should_use_optimized o = true -> fd_mode_handled o = true.
+Proof. exact fd_should_use_handled. Qed.
+Print Assumptions C03_should_use_implies_handled.
+
+(* the first-character loop of findFirstCharDefault (runner.go:1438-1465), both directions *)
+Theorem C03_finder_first_char_loop :
+  forall (R : Type) (text : list Z) (exec : Z -> option R * Z) (set_in : Z -> Z -> bool) (rtl : bool) (fc : option fdfc),
+    (forall f, fc = Some f -> fd_fc_fact R text exec rtl (fd_fc_test set_in f)) ->
+    sc_H1_true R (zlen text) rtl (fd_total (fd_first_char_loop text set_in rtl fc)) exec /\
+    sc_H1_false R (zlen text) rtl (fd_total (fd_first_char_loop text set_in rtl fc)) exec.
+Proof. exact fd_first_char_loop_H1. Qed.
+Print Assumptions C03_finder_first_char_loop.
+
+(* findFirstCharDefault below the Boyer-Moore branch (runner.go:1432-1465) *)
+Theorem C03_finder_default_below_bm :
+  forall (R : Type) (text : list Z) (exec : Z -> option R * Z) (set_in : Z -> Z -> bool) (lower : Z -> Z)
+         (rtl : bool) (o : option fdopts) (fc : option fdfc),
+    (forall o', o = Some o' -> fd_should_use_optimized o' = true ->
+       rtl = false /\ fd_minlen_fact R text exec (fo_minreq o') /\ fd_mode_fact R text exec set_in lower o') ->
+    ((forall o', o = Some o' -> fd_should_use_optimized o' = false) ->
+       forall f, fc = Some f -> fd_fc_fact R text exec rtl (fd_fc_test set_in f)) ->
+    sc_H1_true R (zlen text) rtl (fd_total (fd_ffc_nobm text set_in lower rtl o fc)) exec /\
+    sc_H1_false R (zlen text) rtl (fd_total (fd_ffc_nobm text set_in lower rtl o fc)) exec.
+Proof. exact fd_ffc_nobm_H1. Qed.
+Print Assumptions C03_finder_default_below_bm.
+
+(* ALL of findFirstCharDefault (runner.go:1386-1466): anchor jumps, Boyer-Moore branch, optimized finders,
+   first-character loop.  The Boyer-Moore machine is specified, not modelled: [bm] / [bm_scan] are its
+   answers and the fifth / sixth hypotheses say what is assumed of them. *)
+Theorem C03_finder_default :
+  forall (R : Type) (text : list Z) (exec : Z -> option R * Z) (set_in : Z -> Z -> bool) (lower : Z -> Z)
+         (rtl : bool) (anchors ts : Z) (bm : option (Z -> bool)) (bm_scan : option (Z -> Z))
+         (o : option fdopts) (fc : option fdfc),
+    let n := zlen text in
+    let succeeds := fun x => fst (exec x) <> None in
+    (abit anchors ANCH_BEGINNING = true -> forall x, sc_in_text n x -> succeeds x -> x = 0) ->
+    (abit anchors ANCH_START = true -> forall x, sc_in_text n x -> succeeds x -> x = ts) ->
+    (abit anchors ANCH_ENDZ = true -> forall x, sc_in_text n x -> succeeds x ->
+       x = n \/ (x = n - 1 /\ nth (Z.to_nat x) text 0 = 10)) ->
+    (abit anchors ANCH_END = true -> forall x, sc_in_text n x -> succeeds x -> x = n) ->
+    (forall is_match, bm = Some is_match -> forall x, sc_in_text n x -> succeeds x -> is_match x = true) ->
+    (forall scan, bm_scan = Some scan -> fd_bm_scan_fact R text exec rtl scan) ->
+    (bm_scan = None ->
+       sc_H1_true R n rtl (fd_total (fd_ffc_nobm text set_in lower rtl o fc)) exec /\
+       sc_H1_false R n rtl (fd_total (fd_ffc_nobm text set_in lower rtl o fc)) exec) ->
+    sc_H1_true R n rtl (fd_total (fd_find_first_char_default text set_in lower rtl anchors ts bm bm_scan o fc)) exec /\
+    sc_H1_false R n rtl (fd_total (fd_find_first_char_default text set_in lower rtl anchors ts bm bm_scan o fc)) exec.
+Proof. exact fd_default_H1. Qed.
+Print Assumptions C03_finder_default.
+
+(* ---- non-vacuity for these finders ---- *)
+
+(* [ab]*cd on "xabcdab": the matcher succeeds at 1, 2 and 3 (loop runs "ab", "b", ""); literal "cd" after the
+   loop set {a,b} (set id 0).  From 0 the literal is found at 3 and the walk back over {a,b} stops at 1. *)
+Definition fy_text : list Z := [120; 97; 98; 99; 100; 97; 98].
+Definition fy_set_in (id x : Z) : bool := (id =? 0) && ((x =? 97) || (x =? 98)).
+Definition fy_exec (p : Z) : option Z * Z := (if (1 <=? p) && (p <=? 3) then Some p else None, p).
+Definition fy_lal (s : list Z) (ic : bool) (ch : Z) (chs : list Z) : option fdlal :=
+  Some {| lal_string := s; lal_string_ic := ic; lal_char := ch; lal_chars := chs; lal_loop_set := Some 0 |}.
+Example C03_finder_literal_after_loop_witness :
+  let F := fun l p => fd_find_literal_after_loop fy_text fy_set_in fx_low 2 p l in
+  F (fy_lal [99; 100] false 0 []) 0 = Ok (true, 1) /\          (* string "cd" *)
+  F (fy_lal [99; 100] false 0 []) 4 = Ok (false, 7) /\
+  F (fy_lal [] false 99 []) 0 = Ok (true, 1) /\                (* rune 'c' *)
+  F (fy_lal [] false 0 [99; 122]) 0 = Ok (true, 1) /\          (* one of "cz" *)
+  fd_find_literal_after_loop [120; 97; 98; 67; 68] fy_set_in fx_low 2 0 (fy_lal [99; 100] true 0 []) = Ok (true, 1) /\
+  sc_chk_H1 Z 7 false (fd_total (F (fy_lal [99; 100] false 0 []))) fy_exec = true /\
+  scan 7 false 2 (fd_total (F (fy_lal [99; 100] false 0 []))) fy_exec 0 (-1) = Ok (Some 1).
+Proof. vm_compute. repeat split; reflexivity. Qed.
+
+(* the fact holds for this matcher, so the theorem applies *)
+Example C03_finder_literal_after_loop_applies :
+  fd_sound Z fy_text fy_exec
+    (fun p => fd_find_literal_after_loop fy_text fy_set_in fx_low 2 p (fy_lal [99; 100] false 0 [])).
+Proof.
+  assert (Hs : forall q, fd_succeeds Z fy_exec q -> 1 <= q <= 3).
+  { intros q H. unfold fd_succeeds, fy_exec in H. cbn [fst] in H.
+    destruct ((1 <=? q) && (q <=? 3)) eqn:E; [lia | contradiction]. }
+  apply (C03_finder_literal_after_loop Z fy_text fy_exec fx_low 2) with (ls := 0); [|reflexivity|].
+  - intros q Hq H. specialize (Hs q H). change (zlen fy_text) with 7. lia.
+  - intros q Hq H. specialize (Hs q H). exists 3. change (zlen fy_text) with 7. split; [lia|]. split.
+    + intros i Hi. assert (Hc : i = 1 \/ i = 2) by lia. destruct Hc as [->| ->]; reflexivity.
+    + vm_compute. reflexivity.
+Qed.
+
+(* a loop set that is too small ({a} instead of {a,b}) makes the walk back stop early: the match at 1 is lost *)
+Example C03_finder_wrong_loop_set_moves_match :
+  let bad := fd_total (fun p => fd_find_literal_after_loop fy_text (fun id x => (id =? 0) && (x =? 97)) fx_low 2 p
+                                  (fy_lal [99; 100] false 0 [])) in
+  bad 0 = (true, 3) /\ sc_chk_H1 Z 7 false bad fy_exec = false /\
+  scan 7 false 2 bad fy_exec 0 (-1) = Ok (Some 3) /\ naive_scan 7 false fy_exec 0 (-1) = Ok (Some 1).
+Proof. vm_compute. repeat split; reflexivity. Qed.
+
+(* landmark chain for [ab]+(?:\s+=|:)[ab]+; : loop set {a,b} (id 0), first landmark "=" with required leading
+   whitespace (set 1 = {space}) or ":", second landmark ";".  Text "x a  =b;" : the chain is found with the
+   first core at 5 ('='), stepped back over the whitespace to 3 and over the loop set to 2.  The matcher of
+   this example succeeds at 2 only. *)
+Definition fz_text : list Z := [120; 32; 97; 32; 32; 61; 98; 59].
+Definition fz_set_in (id x : Z) : bool :=
+  ((id =? 0) && ((x =? 97) || (x =? 98))) || ((id =? 1) && (x =? 32)).
+Definition fz_alt (lit : list Z) (ws : option Z) (req : bool) : fdalt :=
+  {| la_literal := lit; la_set := None; la_lead_ws := ws; la_trail_ws := None; la_min := 1; la_max := 1;
+     la_req_before := req; la_req_after := false |}.
+Definition fz_chain : option fdchain :=
+  Some {| lc_loop_set := Some 0;
+          lc_landmarks := [[fz_alt [61] (Some 1) true; fz_alt [58] None false]; [fz_alt [59] None false]] |}.
+Definition fz_exec (p : Z) : option Z * Z := (if p =? 2 then Some p else None, p).
+Example C03_finder_landmark_chain_witness :
+  let F := fun p => fd_find_landmark_chain fz_text fz_set_in 4 p fz_chain in
+  F 0 = Ok (true, 2) /\ F 3 = Ok (true, 3) /\ F 6 = Ok (false, 8) /\
+  fd_find_landmark_chain [120; 32; 97; 32; 32; 61; 98; 120] fz_set_in 4 0 fz_chain = Ok (false, 8) /\  (* no ';' *)
+  sc_chk_H1 Z 8 false (fd_total F) fz_exec = true /\
+  scan 8 false 4 (fd_total F) fz_exec 0 (-1) = Ok (Some 2).
+Proof. vm_compute. repeat split; reflexivity. Qed.
+
+(* landmarks in the wrong order (";" before "=") : the chain is never found and the match is lost *)
+Example C03_finder_wrong_landmark_order_loses_match :
+  let bad := fd_total (fun p => fd_find_landmark_chain fz_text fz_set_in 4 p
+      (Some {| lc_loop_set := Some 0;
+               lc_landmarks := [[fz_alt [59] None false]; [fz_alt [61] (Some 1) true; fz_alt [58] None false]] |})) in
+  bad 0 = (false, 8) /\ sc_chk_H1 Z 8 false bad fz_exec = false /\
+  scan 8 false 4 bad fz_exec 0 (-1) = Ok None /\ naive_scan 8 false fz_exec 0 (-1) = Ok (Some 2).
+Proof. vm_compute. repeat split; reflexivity. Qed.
+
+(* first-character loop, both directions: set {a,b}; left-to-right from 0 on "x a  =b;" stops at 2,
+   right-to-left from 8 stops at 7 (the rune before 7 is 'b') *)
+Example C03_finder_first_char_loop_witness :
+  let fc := Some {| fc_singleton := None; fc_set := 0 |} in
+  fd_first_char_loop fz_text fz_set_in false fc 0 = Ok (true, 2) /\
+  fd_first_char_loop fz_text fz_set_in false fc 7 = Ok (false, 8) /\
+  fd_first_char_loop fz_text fz_set_in true fc 8 = Ok (true, 7) /\
+  fd_first_char_loop fz_text fz_set_in true fc 2 = Ok (false, 0) /\
+  fd_first_char_loop fz_text fz_set_in false (Some {| fc_singleton := Some 61; fc_set := 0 |}) 0 = Ok (true, 5) /\
+  sc_chk_H1 Z 8 false (fd_total (fd_first_char_loop fz_text fz_set_in false fc)) fz_exec = true.
+Proof. vm_compute. repeat split; reflexivity. Qed.
+
+(* the dispatcher and findFirstCharDefault on the same data: mode 23 is served by the landmark-chain finder
+   (shouldUse = true); with Code.Anchors = Beginning the anchor part answers instead *)
+Definition fz_opts : fdopts :=
+  {| fo_mode := FM_RequiredLandmarkChain_LeftToRight; fo_minreq := 4; fo_prefix := []; fo_prefixes := [];
+     fo_first_runes := []; fo_fdl_c := 0; fo_fdl_s := []; fo_fdl_distance := 0; fo_sets := []; fo_lal := None;
+     fo_chain := fz_chain |}.
+Example C03_finder_default_witness :
+  fd_should_use_optimized fz_opts = true /\
+  fd_find_first_char_optimized fz_text fz_set_in fx_low fz_opts 0 = Ok (true, true, 2) /\
+  fd_find_first_char_default fz_text fz_set_in fx_low false 0 0 None None (Some fz_opts) None 0 = Ok (true, 2) /\
+  fd_verif_find_first_char fz_text fz_set_in fx_low false 0 0 None None (Some fz_opts) None 5 = Ok (true, false, 5) /\
+  fd_find_first_char_default fz_text fz_set_in fx_low false ANCH_BEGINNING 0 None None (Some fz_opts) None 3 = Ok (false, 8) /\
+  fd_find_first_char_default fz_text fz_set_in fx_low false 0 0 None (Some (fun p => if p <=? 2 then 2 else -1)) None None 3
+    = Ok (false, 8).
+Proof. vm_compute. repeat split; reflexivity. Qed.
